@@ -165,6 +165,9 @@ class DataPacketQueue(utils.EventEmitter):
                 f'{packet_count} completed for {connection_handle} '
                 f'but only {connection_state.in_flight} in flight'
             )
+            # Only count what this connection really had in flight, so that the
+            # credits of other connections are not affected.
+            packet_count = connection_state.in_flight
             connection_state.in_flight = 0
         if connection_state.in_flight == 0:
             connection_state.drained.set()
